@@ -69,12 +69,18 @@ class FormsMapTok:
 
 
 class SymList:
-    """[body for idx in range(count)] with a symbolic count."""
+    """[body for idx in range(count) if cond] with a symbolic count."""
 
-    def __init__(self, count, idx, body):
+    def __init__(self, count, idx, body, cond=None):
         self.count = count
         self.idx = idx
         self.body = body
+        self.cond = cond        # filter condition (None = every index)
+
+    def guarded_body(self, zero=0):
+        if self.cond is None:
+            return self.body
+        return E('ite', self.cond, self.body, zero, ty=_ty(self.body))
 
 
 class SymRange:
@@ -402,6 +408,8 @@ class LineEval:
         if isinstance(v, E):
             return self.decide(v, node, rel)
         if isinstance(v, SymList):
+            if v.cond is not None:
+                return self.decide(E('exists_n', v.idx, v.cond, ty='bool'), node, rel)
             return self.decide(E('gt', v.count, 0, ty='bool'), node, rel)
         if isinstance(v, (Rec, Closure, ClassV, EnumV, EnumMember, ModuleV, Builtin, ExternalV, SolverTok, InputsTok, ValuesTok)):
             return True
@@ -1324,8 +1332,8 @@ class LineEval:
             seq = args[0]
             start = args[1] if len(args) > 1 else 0
             if isinstance(seq, SymList):
-                body = seq.body
-                s = E('sumn', seq.count, seq.idx, body, ty=_num_ty(body))
+                body = seq.guarded_body(0)
+                s = E('sumn', seq.count, seq.idx, body, ty=_num_ty(seq.body))
                 return s if (start == 0 and not isinstance(start, float)) else self.binop(ast.Add(), start, s, n, rel)
             if isinstance(seq, (list, tuple)):
                 acc = start
@@ -1359,7 +1367,9 @@ class LineEval:
             if isinstance(args[0], (list, tuple)):
                 return len(args[0])
             if isinstance(args[0], SymList):
-                return args[0].count
+                if args[0].cond is None:
+                    return args[0].count
+                return E('countif', args[0].count, args[0].idx, args[0].cond, ty='int')
             return E('call', 'len', args[0], ty='int')
         if name in ('list', 'tuple'):
             return args[0]
@@ -1376,7 +1386,10 @@ class LineEval:
                         return False
                 return name == 'all'
             if isinstance(seq, SymList):
-                q = E('exists_n' if name == 'any' else 'forall_n', seq.idx, seq.body, ty='bool')
+                b = seq.body
+                if seq.cond is not None:
+                    b = E('and', seq.cond, b, ty='bool') if name == 'any' else E('or', E('not', seq.cond, ty='bool'), b, ty='bool')
+                q = E('exists_n' if name == 'any' else 'forall_n', seq.idx, b, ty='bool')
                 return q
         if name == 'print':
             self.event('effect', 'print() inside a definition', n, rel)
@@ -1428,14 +1441,36 @@ class LineEval:
             self.nofork += 1
             try:
                 body = self.nofork_expr(n.elt, ctx)
-                for cond in g.ifs:
-                    c = self.nofork_expr(cond, ctx)
-                    body = E('ite', c, body, 0, ty=_ty(body))
+                cond = None
+                for cnd in g.ifs:
+                    c = self.nofork_cond(cnd, ctx)
+                    if c is True:
+                        continue
+                    cond = c if cond is None else E('and', cond, c, ty='bool')
             finally:
                 self.nofork -= 1
                 self.loop_depth -= 1
                 ctx.env.pop()
-            return SymList(it.hi, idx, body)
+            return SymList(it.hi, idx, body, cond)
+        if isinstance(it, SymList) and isinstance(g.target, ast.Name) and len(n.generators) == 1 and isinstance(it.body, E) and it.body.op == 'idx':
+            # iterating over a (filtered) list of instance numbers
+            idx = it.idx
+            ctx.env.append({g.target.id: idx})
+            self.loop_depth += 1
+            self.nofork += 1
+            try:
+                body = self.nofork_expr(n.elt, ctx)
+                cond = it.cond
+                for cnd in g.ifs:
+                    c = self.nofork_cond(cnd, ctx)
+                    if c is True:
+                        continue
+                    cond = c if cond is None else E('and', cond, c, ty='bool')
+            finally:
+                self.nofork -= 1
+                self.loop_depth -= 1
+                ctx.env.pop()
+            return SymList(it.count, idx, body, cond)
         seq = None
         if isinstance(it, (list, tuple, str, range)):
             seq = list(it)
